@@ -23,6 +23,8 @@ struct Cont {
     std::function<std::vector<NI>()> list;                // vector getter
     std::function<std::string(const std::string &)> create;   // returns id; may throw
     std::function<bool(const NI &, int)> remove;          // how: 0 name, 1 id, 2 handle
+    std::function<void(const std::vector<std::string> &)> set_all;   // membership containers: replace all members (names of owner entities, in this order)
+    std::function<bool(const NI &)> has_foreign, remove_foreign;     // has / delete through the handle of a NAMESAKE child of the sibling container
 };
 
 template <typename E> NI ni(const E &e) { return NI(e.name(), e.id()); }
@@ -58,7 +60,9 @@ struct World {
               k.get = [S](const std::string &q, NI &o) { return opt_ni(S.getSection(q), o); }; k.has = [S](const std::string &q) { return S.hasSection(q); };
               k.has_handle = [S](ndsize_t i) { return S.hasSection(S.getSection(i)); }; k.list = [S] { std::vector<NI> v; for (auto &e : S.sections()) v.push_back(ni(e)); return v; };
               k.create = [S](const std::string &n) mutable { return S.createSection(n, "t").id(); };
-              k.remove = [S](const NI &x, int how) mutable { return how == 0 ? S.deleteSection(x.first) : how == 1 ? S.deleteSection(x.second) : S.deleteSection(S.getSection(x.second)); }; conts.push_back(k); }
+              k.remove = [S](const NI &x, int how) mutable { return how == 0 ? S.deleteSection(x.first) : how == 1 ? S.deleteSection(x.second) : S.deleteSection(S.getSection(x.second)); };
+              { Section O = std::string(sn) == "S0" ? f.getSection("S0").getSection("c") : f.getSection("S0"); k.has_foreign = [S, O](const NI &x) { return S.hasSection(O.getSection(x.second)); }; k.remove_foreign = [S, O](const NI &x) mutable { return S.deleteSection(O.getSection(x.second)); }; }
+              conts.push_back(k); }
             { Cont k; k.key = std::string("section[") + sn + "].properties"; k.kind = "section.properties";
               k.count = [S] { return S.propertyCount(); }; k.at = [S](ndsize_t i) { return ni(S.getProperty(i)); };
               k.get = [S](const std::string &q, NI &o) { return opt_ni(S.getProperty(q), o); }; k.has = [S](const std::string &q) { return S.hasProperty(q); };
@@ -87,7 +91,9 @@ struct World {
             k.get = [S](const std::string &q, NI &o) { return opt_ni(S.getSource(q), o); }; k.has = [S](const std::string &q) { return S.hasSource(q); };
             k.has_handle = [S](ndsize_t i) { return S.hasSource(S.getSource(i)); }; k.list = [S] { std::vector<NI> v; for (auto &e : S.sources()) v.push_back(ni(e)); return v; };
             k.create = [S](const std::string &n) mutable { return S.createSource(n, "t").id(); };
-            k.remove = [S](const NI &x, int how) mutable { return how == 0 ? S.deleteSource(x.first) : how == 1 ? S.deleteSource(x.second) : S.deleteSource(S.getSource(x.second)); }; conts.push_back(k);
+            k.remove = [S](const NI &x, int how) mutable { return how == 0 ? S.deleteSource(x.first) : how == 1 ? S.deleteSource(x.second) : S.deleteSource(S.getSource(x.second)); };
+            { Source O = std::string(sn) == "src0" ? B.getSource("src0").getSource("c") : B.getSource("src0"); k.has_foreign = [S, O](const NI &x) { return S.hasSource(O.getSource(x.second)); }; k.remove_foreign = [S, O](const NI &x) mutable { return S.deleteSource(O.getSource(x.second)); }; }
+            conts.push_back(k);
         }
         // ---- membership containers: children are arrays / sources of block B0 picked by name (the "create" argument is the name of an existing entity)
         Tag T = B.getTag("T0"); MultiTag M = B.getMultiTag("M0"); Group G = B.getGroup("G0"); DataArray A = B.getDataArray("pos");
@@ -96,31 +102,31 @@ struct World {
           k.get = [T](const std::string &q, NI &o) { return opt_ni(T.getReference(q), o); }; k.has = [T](const std::string &q) { return T.hasReference(q); };
           k.has_handle = [T](ndsize_t i) { return T.hasReference(T.getReference((size_t)i)); }; k.list = [T] { std::vector<NI> v; for (auto &e : T.references()) v.push_back(ni(e)); return v; };
           k.create = [T, B](const std::string &n) mutable { DataArray a = B.getDataArray(n); if (n.size() % 2) T.addReference(a); else T.addReference(a.id()); return a.id(); };
-          k.remove = [T, B](const NI &x, int how) mutable { return how == 0 ? T.removeReference(x.first) : how == 1 ? T.removeReference(x.second) : T.removeReference(B.getDataArray(x.second)); }; conts.push_back(k); }
+          k.remove = [T, B](const NI &x, int how) mutable { return how == 0 ? T.removeReference(x.first) : how == 1 ? T.removeReference(x.second) : T.removeReference(B.getDataArray(x.second)); }; k.set_all = [T, B](const std::vector<std::string> &n) mutable { std::vector<DataArray> v; for (auto &x : n) v.push_back(B.getDataArray(x)); T.references(v); }; conts.push_back(k); }
         { Cont k; k.key = "multitag[M0].references"; k.kind = "multitag.references"; k.membership = true;
           k.count = [M] { return M.referenceCount(); }; k.at = [M](ndsize_t i) { return ni(M.getReference((size_t)i)); };
           k.get = [M](const std::string &q, NI &o) { return opt_ni(M.getReference(q), o); }; k.has = [M](const std::string &q) { return M.hasReference(q); };
           k.has_handle = [M](ndsize_t i) { return M.hasReference(M.getReference((size_t)i)); }; k.list = [M] { std::vector<NI> v; for (auto &e : M.references()) v.push_back(ni(e)); return v; };
           k.create = [M, B](const std::string &n) mutable { DataArray a = B.getDataArray(n); M.addReference(a); return a.id(); };
-          k.remove = [M, B](const NI &x, int how) mutable { return how == 0 ? M.removeReference(x.first) : how == 1 ? M.removeReference(x.second) : M.removeReference(B.getDataArray(x.second)); }; conts.push_back(k); }
+          k.remove = [M, B](const NI &x, int how) mutable { return how == 0 ? M.removeReference(x.first) : how == 1 ? M.removeReference(x.second) : M.removeReference(B.getDataArray(x.second)); }; k.set_all = [M, B](const std::vector<std::string> &n) mutable { std::vector<DataArray> v; for (auto &x : n) v.push_back(B.getDataArray(x)); M.references(v); }; conts.push_back(k); }
         { Cont k; k.key = "group[G0].dataArrays"; k.kind = "group.dataArrays"; k.membership = true;
           k.count = [G] { return G.dataArrayCount(); }; k.at = [G](ndsize_t i) { return ni(G.getDataArray((size_t)i)); };
           k.get = [G](const std::string &q, NI &o) { return opt_ni(G.getDataArray(q), o); }; k.has = [G](const std::string &q) { return G.hasDataArray(q); };
           k.has_handle = [G](ndsize_t i) { return G.hasDataArray(G.getDataArray((size_t)i)); }; k.list = [G] { std::vector<NI> v; for (auto &e : G.dataArrays()) v.push_back(ni(e)); return v; };
           k.create = [G, B](const std::string &n) mutable { DataArray a = B.getDataArray(n); if (n.size() % 2) G.addDataArray(a); else G.addDataArray(a.id()); return a.id(); };
-          k.remove = [G, B](const NI &x, int how) mutable { return how == 0 ? G.removeDataArray(x.first) : how == 1 ? G.removeDataArray(x.second) : G.removeDataArray(B.getDataArray(x.second)); }; conts.push_back(k); }
+          k.remove = [G, B](const NI &x, int how) mutable { return how == 0 ? G.removeDataArray(x.first) : how == 1 ? G.removeDataArray(x.second) : G.removeDataArray(B.getDataArray(x.second)); }; k.set_all = [G, B](const std::vector<std::string> &n) mutable { std::vector<DataArray> v; for (auto &x : n) v.push_back(B.getDataArray(x)); G.dataArrays(v); }; conts.push_back(k); }
         { Cont k; k.key = "group[G0].tags"; k.kind = "group.tags"; k.membership = true;
           k.count = [G] { return G.tagCount(); }; k.at = [G](ndsize_t i) { return ni(G.getTag((size_t)i)); };
           k.get = [G](const std::string &q, NI &o) { return opt_ni(G.getTag(q), o); }; k.has = [G](const std::string &q) { return G.hasTag(q); };
           k.has_handle = [G](ndsize_t i) { return G.hasTag(G.getTag((size_t)i)); }; k.list = [G] { std::vector<NI> v; for (auto &e : G.tags()) v.push_back(ni(e)); return v; };
           k.create = [G, B](const std::string &n) mutable { Tag a = B.getTag(n); G.addTag(a); return a.id(); };
-          k.remove = [G, B](const NI &x, int how) mutable { return how == 0 ? G.removeTag(x.first) : how == 1 ? G.removeTag(x.second) : G.removeTag(B.getTag(x.second)); }; conts.push_back(k); }
+          k.remove = [G, B](const NI &x, int how) mutable { return how == 0 ? G.removeTag(x.first) : how == 1 ? G.removeTag(x.second) : G.removeTag(B.getTag(x.second)); }; k.set_all = [G, B](const std::vector<std::string> &n) mutable { std::vector<Tag> v; for (auto &x : n) v.push_back(B.getTag(x)); G.tags(v); }; conts.push_back(k); }
         { Cont k; k.key = "array[pos].sources"; k.kind = "entity.sources"; k.membership = true; k.by_name = false;
           k.count = [A] { return A.sourceCount(); }; k.at = [A](ndsize_t i) { return ni(A.getSource((size_t)i)); };
           k.get = [A](const std::string &q, NI &o) { return opt_ni(A.getSource(q), o); }; k.has = [A](const std::string &q) { return A.hasSource(q); };
           k.has_handle = [A](ndsize_t i) { return A.hasSource(A.getSource((size_t)i)); }; k.list = [A] { std::vector<NI> v; for (auto &e : A.sources()) v.push_back(ni(e)); return v; };
           k.create = [A, B](const std::string &n) mutable { Source s = B.getSource(n); if (n.size() % 2) A.addSource(s); else A.addSource(s.id()); return s.id(); };
-          k.remove = [A, B](const NI &x, int how) mutable { return how == 1 ? A.removeSource(x.second) : A.removeSource(B.getSource(x.second)); }; conts.push_back(k); }
+          k.remove = [A, B](const NI &x, int how) mutable { return how == 1 ? A.removeSource(x.second) : A.removeSource(B.getSource(x.second)); }; k.set_all = [A, B](const std::vector<std::string> &n) mutable { std::vector<Source> v; for (auto &x : n) v.push_back(B.getSource(x)); A.sources(v); }; conts.push_back(k); }
         { Cont k; k.key = "tag[T0].features"; k.kind = "tag.features"; k.membership = false; k.named = false; k.by_name = false;
           k.count = [T] { return T.featureCount(); }; k.at = [T](ndsize_t i) { Feature x = T.getFeature(i); return NI(x.id(), x.id()); };
           k.get = [T](const std::string &q, NI &o) { Feature x = T.getFeature(q); if (!x) return false; o = NI(x.id(), x.id()); return true; }; k.has = [T](const std::string &q) { return T.hasFeature(q); };
@@ -128,6 +134,7 @@ struct World {
           k.create = [T, A](const std::string &) mutable { return T.createFeature(A, LinkType::Untagged).id(); };
           k.remove = [T](const NI &x, int how) mutable { return how == 2 ? T.deleteFeature(T.getFeature(x.second)) : T.deleteFeature(x.second); }; conts.push_back(k); }
     }
+    static std::string sibling(const std::string &key) { if (key == "section[S0].sections") return "section[S0/c].sections"; if (key == "section[S0/c].sections") return "section[S0].sections"; if (key == "source[src0].sources") return "source[src0/c].sources"; if (key == "source[src0/c].sources") return "source[src0].sources"; return ""; }
     Cont *find(const std::string &key) { for (auto &k : conts) if (k.key == key) return &k; return nullptr; }
 
     void build() {
@@ -198,7 +205,10 @@ struct World {
                 std::string owner = k.kind == "group.tags" ? "block[B0].tags" : k.kind == "entity.sources" ? "block[B0].sources" : "block[B0].dataArrays";
                 std::vector<NI> cand; for (auto &x : shadow[owner]) { bool in = false; for (auto &y : sh) if (y.second == x.second) in = true; if (!in) cand.push_back(x); }
                 if (cand.empty()) return; nm = cand[r.u(cand.size())].first;
-            } else nm = (k.named && !sh.empty() && r.chance(0.15)) ? sh[r.u(sh.size())].first : fresh_name();   // sometimes an existing name on purpose
+            } else {
+                nm = (k.named && !sh.empty() && r.chance(0.15)) ? sh[r.u(sh.size())].first : fresh_name();   // sometimes an existing name on purpose
+                std::string sib = sibling(k.key); if (!sib.empty() && r.chance(0.35) && !shadow[sib].empty()) { std::string cand = shadow[sib][r.u(shadow[sib].size())].first; if (cand != "c") nm = cand; }   // or the name of a child of the sibling container
+            }
             bool dup = false; if (k.named && !k.membership) for (auto &x : sh) if (x.first == nm) dup = true;
             c.op("create " + k.kind + (dup ? " duplicate-name" : "") + " | '" + nm.substr(0, 40) + "'");
             std::string id; bool threw = false; std::string exc;
@@ -216,6 +226,23 @@ struct World {
             c.check(ok, "C03/" + k.kind + "/delete-returned-false/" + (how == 0 ? (util::looksLikeUUID(x.first) ? "uuid-name" : "name") : how == 1 ? "id" : "handle"), [&] { return k.key + ": delete of live child '" + x.first.substr(0, 40) + "' by " + (how == 0 ? "name" : how == 1 ? "id" : "handle") + " returned false"; });
             if (ok) { sh.erase(sh.begin() + (long)i); if (k.named) graveyard[k.key].push_back(x.first); graveyard[k.key].push_back(x.second); if (!k.membership) forget_everywhere(x.second); }
             c.count("deletes");
+        } else if (k.membership && k.set_all && r.chance(0.6)) {   // replace all members by a vector: the members are then exactly the vector, in its order
+            std::string owner = k.kind == "group.tags" ? "block[B0].tags" : k.kind == "entity.sources" ? "block[B0].sources" : "block[B0].dataArrays";
+            std::vector<NI> pick; for (auto &x : shadow[owner]) if (r.chance(0.5) && pick.size() < 6) pick.push_back(x); for (size_t i = pick.size(); i > 1; i--) std::swap(pick[i - 1], pick[r.u(i)]);
+            if (!sh.empty() && !pick.empty() && r.chance(0.5)) { bool in = false; for (auto &y : pick) if (y.second == sh[0].second) in = true; if (!in) pick.push_back(sh[0]); }   // overlap with the current members
+            std::vector<std::string> names; for (auto &x : pick) names.push_back(x.first);
+            c.op("set-vector " + k.kind + " | n=" + str(names.size()));
+            try { k.set_all(names); sh = pick; } catch (std::exception &e) { c.check(false, "C03/" + k.kind + "/vector-setter-threw", k.key + ": vector setter threw " + e.what()); }
+            c.count("vector_setters");
+        } else if (k.has_foreign && !sibling(k.key).empty()) {   // the handle of a namesake child of the sibling container is not a child here
+            std::string sib = sibling(k.key);
+            for (auto &x : shadow[sib]) { bool namesake = false; for (auto &y : sh) if (y.first == x.first && y.second != x.second) namesake = true; if (!namesake) continue;
+                c.op("probe-foreign-handle " + k.kind + " | '" + x.first.substr(0, 30) + "'");
+                bool h = true; try { h = k.has_foreign(x); } catch (std::exception &) { h = false; }
+                c.check(!h, "C03/" + k.kind + "/has-by-foreign-handle", [&] { return k.key + ": has(handle) is true for the namesake '" + x.first.substr(0, 30) + "' that belongs to " + sib; });
+                bool del = true; try { del = k.remove_foreign(x); } catch (std::exception &) { del = false; }
+                c.check(!del, "C03/" + k.kind + "/delete-by-foreign-handle", [&] { return k.key + ": delete(handle of " + sib + "'s namesake '" + x.first.substr(0, 30) + "') returned true"; });
+                c.count("foreign_handle_probes"); monitor(*find(sib), "after foreign-handle probe"); break; }
         } else {
             c.op("probe " + k.kind);
         }
